@@ -243,6 +243,7 @@ def sysLine (m : MState) (line : String) : MState :=
     let w := sampleConfigId w "/simul_efun.c"
     ({ m with sys := { m.sys with w := w } }).emit s!"restarted {w.configId}"
   | "expect" :: _ => m
+  | "incsearch" :: _ => m
   | ["bindump", obj] =>
     -- the bytes of the saved binary are data (what the compiler produced is not modelled); the model reads them with its
     -- own decoder and states what the file holds
